@@ -473,5 +473,45 @@ func runPartition(c *core.Ctx) []core.Obligation {
 		obs = append(obs, core.Ob("R-PARTITION", "Polygon.Invert:loops-kept-once", c.Pos(fn.Pos()), core.FuncName(fn), core.Violated,
 			"Invert does not keep every loop exactly once: "+strings.Join(diffs, "; ")))
 	}
+	// nesting depths: the former siblings move one level down, the former descendants one level up - every depth
+	// written in Invert is the loop's own depth shifted by one, once in each direction (the inverted loop itself
+	// keeps depth 0). A depth that is overwritten with a constant loses the hole/shell parity of deeper descendants.
+	var plus, minus, other int
+	var otherDesc string
+	core.AllInstrs(fn, func(in ssa.Instruction) {
+		st, ok := in.(*ssa.Store)
+		if !ok {
+			return
+		}
+		fr, ok := core.AsFieldAddr(st.Addr)
+		if !ok || fr.Name != "depth" {
+			return
+		}
+		bo, isBo := st.Val.(*ssa.BinOp)
+		if isBo && (bo.Op == token.ADD || bo.Op == token.SUB) {
+			k, isK := core.ConstInt(bo.Y)
+			ld, isLd := core.AsFieldLoad(bo.X)
+			if isK && k == 1 && isLd && ld.Name == "depth" && ld.Base == fr.Base {
+				if bo.Op == token.ADD {
+					plus++
+				} else {
+					minus++
+				}
+				return
+			}
+		}
+		other++
+		otherDesc = st.Val.String()
+	})
+	switch {
+	case other > 0:
+		obs = append(obs, core.Ob("R-PARTITION", "Polygon.Invert:depth-shift", c.Pos(fn.Pos()), core.FuncName(fn), core.Violated,
+			"Invert overwrites a loop's depth ("+otherDesc+") instead of shifting it by one: loops nested two or more levels below the inverted shell end up with the wrong hole/shell parity, so Area and Centroid add what they should subtract"))
+	case plus == 1 && minus == 1:
+		obs = append(obs, core.Ob("R-PARTITION", "Polygon.Invert:depth-shift", c.Pos(fn.Pos()), core.FuncName(fn), core.Discharged, "former siblings: depth+1, former descendants: depth-1"))
+	default:
+		obs = append(obs, core.Ob("R-PARTITION", "Polygon.Invert:depth-shift", c.Pos(fn.Pos()), core.FuncName(fn), core.Violated,
+			fmt.Sprintf("expected one depth+1 and one depth-1 in Invert, found %d and %d", plus, minus)))
+	}
 	return obs
 }
